@@ -16,6 +16,31 @@ namespace EventStore
 /-- Payloads travel as `x<hex>`; their size is the byte length. -/
 def psz (p : String) : Nat := (p.length - 1) / 2
 
+/-- The context handed to `After` by an `iter` record: live throughout, or cancelled / past its deadline
+from the body of the `c`-th yielded item on (`c = 0`: before the call). -/
+inductive CtxMode
+  | live
+  | cancel (c : Nat)
+  | deadline (c : Nat)
+deriving DecidableEq, Repr
+
+/-- From which item on the context is done. -/
+def CtxMode.point : CtxMode → Option Nat
+  | .live => none
+  | .cancel c => some c
+  | .deadline c => some c
+
+/-- What a complete `After` issued from inside an iteration observed (the forms of op `after`). -/
+inductive AObs
+  | items (l : List String)
+  | purged
+  | unknown
+  | partialThenPurged
+  | partialThenError
+  | panic
+  | other
+deriving DecidableEq, Repr
+
 /-- The implementation's observation of one record. -/
 inductive Obs
   | ok
@@ -30,10 +55,22 @@ inductive Obs
   | num (n : Nat)
   /-- `stat <nBytes> <maxBytes> <retained bytes counted from the data>` -/
   | stat (nBytes maxBytes retained : Nat)
-  /-- concurrent run: nBytes equals the retained data -/
+  /-- concurrent run: nBytes equals the retained data, private streams replayed exactly -/
   | consistent
+  /-- an `iter` record: how the iteration ended, what it delivered before, and what the `After`s issued
+  from inside it observed (in script order) -/
+  | iter (t : Term) (items : List String) (nested : List AObs)
   | other (s : String)
 deriving DecidableEq, Repr
+
+def AObs.toObs : AObs → Obs
+  | .items l => .items l
+  | .purged => .purged
+  | .unknown => .unknown
+  | .partialThenPurged => .partialThenPurged
+  | .partialThenError => .partialThenError
+  | .panic => .panic
+  | .other => .other ""
 
 /-- One record of the stream. -/
 inductive Rec
@@ -41,6 +78,11 @@ inductive Rec
   /-- `After(k, i)` with an `Append(k2, p)` issued from inside the iteration: the iterator delivers
   what was retained when it started (After copies under the lock), then the append takes effect -/
   | afteri (k : Key) (i : Int) (k2 : Key) (p : String)
+  /-- **the iteration protocol**: `After(ctx, k, i)` ranged over by a consumer that breaks in the body of
+  the `stop`-th item (`none`: drains), with the context `cm`, and the API calls `script` issued from
+  INSIDE the iteration, in order (after the loop where the iteration does not get that far): the
+  iterator delivers from the snapshot taken when it started, whatever the script does to the store -/
+  | iter (k : Key) (i : Int) (cm : CtxMode) (stop : Option Nat) (script : List (Op String))
   | stat
   | concurrent
 deriving Repr
@@ -55,10 +97,17 @@ inductive Clause
   /-- bytes_bound -/
   | bytesBound
   | badStat
-  /-- accounting after concurrent use -/
+  /-- accounting / exact replay of private streams under concurrent use -/
   | concurrent
   /-- an exported method panicked -/
   | panicked
+  /-- after_iteration_complete_or_error: the iteration ended without an error after a proper prefix -/
+  | iterShort
+  /-- a context error although the context was not done -/
+  | ctxErrLive
+  /-- the iterator delivers while holding the store's lock -/
+  | iterLocked
+  | badIter
 deriving DecidableEq, Repr
 
 /-- The monitor's own bookkeeping (independent of the model's state). -/
@@ -89,6 +138,38 @@ def afterClause (st : MState) (k : Key) (i : Int) (obs : Obs) : Option Clause :=
     else if obs = .items (log.drop (i + 1).toNat) then none
     else some .afterWrong
 
+/-- The `iter` clause: is the way the iteration ended, and what it delivered before, allowed by the
+abstract log as of its start?  A complete iteration (`fin`) is exactly the payloads after the index; a
+broken one exactly the first `stop` of them; the purge error comes immediately and only if something
+lies after the index; a context error only once the context is done, after a prefix; anything else that
+cannot be complete is not allowed — in particular ending normally after a proper prefix. -/
+def iterClause (st : MState) (k : Key) (i : Int) (cm : CtxMode) (stop : Option Nat) (t : Term)
+    (items : List String) : Option Clause :=
+  if t = .locked then some .iterLocked else
+  if i < -1 then none else
+  match st.spec.lookup k with
+  | none =>
+    if t = .ctx then
+      match cm.point with
+      | some c => if c ≤ items.length then (if items = [] then none else some .afterUnknown) else some .ctxErrLive
+      | none => some .ctxErrLive
+    else if t = .unknown ∧ items = [] then none else some .afterUnknown
+  | some log =>
+    let exp := log.drop (i + 1).toNat
+    match t with
+    | .fin => if items = exp then none else if items.isPrefixOf exp then some .iterShort else some .afterWrong
+    | .broke =>
+      match stop with
+      | some n => if 1 ≤ n ∧ n ≤ exp.length ∧ items = exp.take n then none else some .afterWrong
+      | none => some .afterWrong
+    | .purged =>
+      if items = [] then (if exp.isEmpty then some .afterPurgedNothing else none) else some .afterWrong
+    | .ctx =>
+      match cm.point with
+      | some c => if c ≤ items.length then (if items.isPrefixOf exp then none else some .afterWrong) else some .ctxErrLive
+      | none => some .ctxErrLive
+    | _ => some .afterWrong
+
 /-- The byte bound on a `stat` probe: the bytes counted from the retained data exceed the configured
 maximum (the reported one under the default) by no more than the most recent item. -/
 def statClause (st : MState) (obs : Obs) : Option Clause :=
@@ -110,11 +191,35 @@ def opClause (st : MState) (o : Op String) (obs : Obs) : Option Clause :=
     | .after k i => afterClause st k i obs
     | _ => none
 
+/-- The `After`s issued from inside an iteration, each judged against the bookkeeping at ITS time. -/
+def nestedClause : MState → List (Op String) → List AObs → Option Clause
+  | _, [], [] => none
+  | _, [], _ :: _ => some .badIter
+  | st, op :: ops, os =>
+    match op with
+    | .after k i =>
+      match os with
+      | [] => some .badIter
+      | o :: os' =>
+        match opClause st (.after k i) o.toObs with
+        | some cl => some cl
+        | none => nestedClause st ops os'
+    | _ => nestedClause (bookOp st op) ops os
+
 /-- **The C20 monitor**, one record: the new bookkeeping and the violated clause, if any. -/
 def monStep (st : MState) (r : Rec) (obs : Obs) : MState × Option Clause :=
   match r with
   | .op o => (bookOp st o, opClause st o obs)
   | .afteri k i k2 p => (bookOp st (.append k2 p), opClause st (.after k i) obs)
+  | .iter k i cm stop script =>
+    (script.foldl bookOp st,
+      match obs with
+      | .panic => some .panicked
+      | .iter t items nested =>
+        match iterClause st k i cm stop t items with
+        | some cl => some cl
+        | none => nestedClause st script nested
+      | _ => some .badIter)
   | .stat => (st, statClause st obs)
   | .concurrent => (st, if obs = .consistent then none else some .concurrent)
 
@@ -137,6 +242,26 @@ def obsOfOut : Out String → Obs
   | .unknown => .unknown
   | .num n => .num n
 
+def aobsOfOut : Out String → AObs
+  | .items l => .items l
+  | .purged => .purged
+  | .unknown => .unknown
+  | _ => .other
+
+/-- The calls issued from inside an iteration, in order; the answers to the `After`s among them. -/
+def runScript : Store String → List (Op String) → Option (Store String × List AObs)
+  | s, [] => some (s, [])
+  | s, op :: ops =>
+    match step psz s op with
+    | none => none
+    | some (s', o) =>
+      match runScript s' ops with
+      | none => none
+      | some (s'', os) =>
+        match op with
+        | .after _ _ => some (s'', aobsOfOut o :: os)
+        | _ => some (s'', os)
+
 /-- The model on one record (`none`: a model-level panic). -/
 def recStep (s : Store String) : Rec → Option (Store String × Obs)
   | .op o => (step psz s o).map fun p => (p.1, obsOfOut p.2)
@@ -147,6 +272,12 @@ def recStep (s : Store String) : Rec → Option (Store String × Obs)
       match step psz s1 (.append k2 p) with
       | none => none
       | some (s2, _) => some (s2, obsOfOut o)
+  | .iter k i _ stop script =>
+    match runScript s script with
+    | none => none
+    | some (s', nested) =>
+      let d := deliver .ignore (afterIter s k i) stop none
+      some (s', .iter d.1 d.2 nested)
   | .stat => some (s, .stat s.nBytes s.maxBytes s.nBytes)
   | .concurrent => some (s, .consistent)
 
